@@ -11,6 +11,7 @@
 -/
 import JSV.Proofs.MshNode
 import JSV.Proofs.MshFacts
+import JSV.Proofs.MshCloneOk
 import JSV.Model.Unmarshal
 namespace JSV.C20
 open JSV Go
@@ -99,6 +100,58 @@ theorem clone_original_marshal_unchanged (B d : Nat) (st : Store) (root c : Node
   have h2 := Go.Sim.marshal_eq (Nat.le_trans hext.1 hB) hB f d root root (Go.Sim.of_good hext d root hg)
   rw [← h2, h1]
 
+/-- fuel: on an acyclic subtree of depth ≤ k, fuel k+1 suffices — the clone does not run out of fuel,
+    succeeds, and allocates exactly one node per visited node (`Go.cloneCount`, the size of the unfolding;
+    for a tree: its number of nodes).  `B`: room for these allocations below the nil ids. -/
+theorem clone_fuel_enough (B k : Nat) (st : Store) (root : NodeId)
+    (hg : Go.Good B st k root) (hB : st.size + Go.cloneCount st k root ≤ B) :
+    ∃ c st', Go.cloneFuel (k + 1) root st = .ok (c, st') ∧ st'.size = st.size + Go.cloneCount st k root := by
+  obtain ⟨c, st', h, _, hs⟩ := Go.cloneFuel_ok B st k root st (Go.Ext.refl st) hg hB
+  exact ⟨c, st', h, hs⟩
+
+/-- the depth bound may always be raised (so any fuel above the depth works) -/
+theorem good_mono (B d k : Nat) (st : Store) (root : NodeId) (hg : Go.Good B st d root) (hk : d ≤ k) :
+    Go.Good B st k root := Go.Good.mono_le hg hk
+
+/-- total correctness of `s.CloneSchemas()` with the model's default fuel, for an acyclic `root` whose
+    depth is at most the number of nodes + 1 (every tree): the call succeeds, the original is untouched,
+    and the clone marshals (json.Marshal, default fuel) to exactly what the original marshals to -/
+theorem clone_total (B d : Nat) (st : Store) (root : NodeId)
+    (hg : Go.Good B st d root) (hd : d ≤ st.size + 1)
+    (hB : st.size + Go.cloneCount st (st.size + 1) root ≤ B) :
+    ∃ c st', Go.clone st root = .ok (c, st') ∧ st'.size = st.size + Go.cloneCount st (st.size + 1) root ∧
+      Go.marshal st' c = Go.marshal st root := by
+  obtain ⟨c, st', h, hs⟩ := clone_fuel_enough B (st.size + 1) st root (Go.Good.mono_le hg hd) hB
+  refine ⟨c, st', h, hs, ?_⟩
+  have hB' : st'.size ≤ B := by rw [hs]; exact hB
+  have hle : st.size ≤ B := Nat.le_trans (Nat.le_add_right _ _) hB
+  show Go.marshalFuel st' (st'.size + 2) c = Go.marshalFuel st (st.size + 2) root
+  rw [clone_marshal_eq B d st root c st' hg h hB' (st'.size + 2)]
+  exact Go.marshalFuel_stable hle d root hg _ _ (by omega) (by omega)
+
+/-- the tree hypothesis in the code's own terms: if checkStructure accepts `root` (every reachable pointer
+    non-nil and met once — what Resolve checks), then `root` is `Good` for every `B`, so no size
+    hypothesis is left: the clone marshals identically with every amount of fuel -/
+theorem clone_marshal_eq_of_checkStructure (st : Store) (root c : NodeId) (st' : Store) (cfuel : Nat)
+    (infos : List (NodeId × Go.Info)) (hc : Go.checkStructure st cfuel [(root, "")] [] = .ok infos)
+    (h : Go.clone st root = .ok (c, st')) (f : Nat) :
+    Go.marshalFuel st' f c = Go.marshalFuel st f root :=
+  clone_marshal_eq st'.size st.size st root c st' (Go.good_of_checkStructure _ st cfuel root infos hc) h
+    (Nat.le_refl _) f
+
+/-- total correctness for trees: if checkStructure accepts `root`, CloneSchemas succeeds (default fuel),
+    leaves the original untouched and returns a fresh tree with the same JSON text -/
+theorem clone_total_of_checkStructure (st : Store) (root : NodeId) (cfuel : Nat)
+    (infos : List (NodeId × Go.Info)) (hc : Go.checkStructure st cfuel [(root, "")] [] = .ok infos) :
+    ∃ c st', Go.clone st root = .ok (c, st') ∧
+      (∀ i, i < st.size → st'.get? i = st.get? i) ∧
+      (∀ b, Go.Reach st' c b → st.size ≤ b) ∧
+      Go.marshal st' c = Go.marshal st root := by
+  obtain ⟨c, st', h, _, hm⟩ := clone_total (st.size + Go.cloneCount st (st.size + 1) root) st.size st root
+    (Go.good_of_checkStructure _ st cfuel root infos hc) (Nat.le_succ _) (Nat.le_refl _)
+  exact ⟨c, st', h, (clone_store_extends st root c st' h).2,
+    fun b hb => ((clone_fresh st root c st' h).2 b hb).1, hm⟩
+
 /-- the 23 fields cloneStep rewrites are exactly the Schema-typed fields of the Go struct: every field
     whose Go type mentions `Schema` has type `*Schema`, `[]*Schema` or `map[string]*Schema`; there are 23
     of them, as many as `Node.childFields` (13 + 5 + 5 by kind); and the JSON names agree -/
@@ -160,6 +213,28 @@ example (f : Nat) :
   | fuel => rw [h] at hd; cases hd
   | panic => rw [h] at hd; cases hd
   | err => rw [h] at hd; cases hd
+
+
+/-- `clone_total` applied to `exStore` (depth 3, 6 visited nodes) -/
+example : ∃ c st', Go.clone exStore 0 = .ok (c, st') ∧ st'.size = 4 + 6 ∧ Go.marshal st' c = Go.marshal exStore 0 :=
+  clone_total Go.nilId 3 exStore 0 (Go.goodB_sound _ _ _ _ (by decide)) (by decide) (by decide)
+
+
+/-- `clone_total_of_checkStructure` applied: a tree (no sharing, no nil) accepted by checkStructure -/
+def exTree : Store := #[
+  { title := "root", allOf := some [1, 2], properties := some [("b", 3)], required := some ["b"] },
+  { type := "string", minLength := some 1 },
+  { not := some 4, extra := some [("x-note", .str "hi")] },
+  { enum := some [.num 1, .null] },
+  {}]
+example : (Go.checkStructure exTree 7 [(0, "")] []).isOk = true := by decide
+example : ∃ c st', Go.clone exTree 0 = .ok (c, st') ∧ (∀ i, i < exTree.size → st'.get? i = exTree.get? i) ∧
+      (∀ b, Go.Reach st' c b → exTree.size ≤ b) ∧ Go.marshal st' c = Go.marshal exTree 0 := by
+  cases hc : Go.checkStructure exTree 7 [(0, "")] [] with
+  | ok infos => exact clone_total_of_checkStructure exTree 0 7 infos hc
+  | fuel => exact absurd (show (Go.checkStructure exTree 7 [(0, "")] []).isOk = true by decide) (by rw [hc]; decide)
+  | panic => exact absurd (show (Go.checkStructure exTree 7 [(0, "")] []).isOk = true by decide) (by rw [hc]; decide)
+  | err => exact absurd (show (Go.checkStructure exTree 7 [(0, "")] []).isOk = true by decide) (by rw [hc]; decide)
 
 /-- why `st'.size ≤ B` is assumed: a "nil" id that the clone's own allocations reach stops being nil.
     Here node 0 has `not := some 1` with 1 dangling (nil); the clone is allocated at id 1 and its `not`
